@@ -67,3 +67,27 @@ func Harness_C29_participants() {
 		assert(eq, "deterministic-selection")
 	}
 }
+
+// Harness_C29_long_table: position tables longer than the 512-draw cap, with the all-zero seed (every draw
+// hits slot 0, so the cap is reached with one distinct peer and the sets are back-filled from the peer list).
+func Harness_C29_long_table() {
+	N, C, L := param("N"), param("C"), param("LL")
+	chain := &vconfig.ChainConfig{N: uint32(N), C: uint32(C)}
+	for i := 1; i <= N; i++ {
+		chain.Peers = append(chain.Peers, &vconfig.PeerConfig{Index: uint32(i)})
+	}
+	first := nondetU32("pos0")
+	assume(first >= 1 && first <= uint32(N))
+	chain.PosTable = append(chain.PosTable, first)
+	for i := 1; i < L; i++ {
+		chain.PosTable = append(chain.PosTable, uint32(1+i%N)) // never drawn by the all-zero seed
+	}
+	cfg := &BlockParticipantConfig{BlockNum: 1, ChainConfig: chain}
+	p, e, c := calcParticipantPeers(cfg, chain)
+	cover("returned")
+	assert(len(p) == C+1, "long-c-plus-one-proposers")
+	assert(len(e) >= 2*C+1, "long-at-least-2c-plus-1-endorsers")
+	assert(len(c) >= 2*C+1, "long-at-least-2c-plus-1-committers")
+	assert(c29Distinct(p) && c29Distinct(e) && c29Distinct(c), "long-distinct")
+	assert(c29Members(p, N) && c29Members(e, N) && c29Members(c, N), "long-members")
+}
